@@ -65,7 +65,10 @@ func c02MapWalk(c *Ctx, prop string) {
 			}
 			found = true
 			k := 0
-			for b := range body {
+			for _, b := range fn.Blocks {
+				if !body[b] {
+					continue
+				}
 				iff, ok := b.Instrs[len(b.Instrs)-1].(*ssa.If)
 				if !ok {
 					continue
